@@ -133,6 +133,19 @@ def emit_all(emit) -> None:
 
     emit.guard(invert_body)
 
+    def post_init():
+        pdef = ast.parse(textwrap.dedent(inspect.getsource(Chop.__post_init__))).body[0]
+        emit(
+            "c03PostInit",
+            "List String × Nat × (String × Nat) × (String × Nat)",
+            _translate_post_init(pdef),
+            "Chop.__post_init__: (the attributes counted as grading parameters, in list order; the threshold k of "
+            "`given < k`; the attribute defaulted when it is None and its integer default; the attribute clamped by "
+            "`max(int(x), m)` when it is not None and m)",
+        )
+
+    emit.guard(post_init)
+
 
 class TranslateError(Exception):
     pass
@@ -392,3 +405,76 @@ def _translate_method(fdef):
             continue
         fail(s, "unsupported statement")
     return out
+
+
+def _translate_post_init(fdef):
+    """`Chop.__post_init__`: list of counted attributes, `if len(xs) - xs.count(None) < k: if self.a is None: self.a = v`,
+    `if self.b is not None: self.b = max(int(self.b), m)`, `self.results = dict()`.  Anything else raises."""
+    import ast
+
+    def fail(node, why):
+        raise TranslateError(f"{fdef.name}: line {getattr(node, 'lineno', '?')}: {why}: {ast.unparse(node)[:120]}")
+
+    def attr(e):
+        if isinstance(e, ast.Attribute) and isinstance(e.value, ast.Name) and e.value.id == "self":
+            return e.attr
+        fail(e, "not an attribute of self")
+
+    def nat(e):
+        if isinstance(e, ast.Constant) and type(e.value) is int and e.value >= 0:
+            return e.value
+        fail(e, "not a whole-number constant")
+
+    def is_none_test(t, op):
+        return (isinstance(t, ast.Compare) and len(t.ops) == 1 and isinstance(t.ops[0], op)
+                and isinstance(t.comparators[0], ast.Constant) and t.comparators[0].value is None)
+
+    stmts = [s for s in fdef.body
+             if not (isinstance(s, ast.Expr) and isinstance(s.value, ast.Constant) and isinstance(s.value.value, str))]
+    names = k = dflt = clamp = None
+    listvar = None
+    for s in stmts:
+        if isinstance(s, ast.AnnAssign) and s.value is not None:
+            s = ast.Assign(targets=[s.target], value=s.value, lineno=s.lineno)
+        if isinstance(s, ast.Assign) and len(s.targets) == 1:
+            tg, v = s.targets[0], s.value
+            if isinstance(tg, ast.Name) and isinstance(v, ast.List) and names is None:
+                listvar, names = tg.id, [attr(x) for x in v.elts]
+                continue
+            if isinstance(tg, ast.Attribute) and attr(tg) == "results" and (
+                    (isinstance(v, ast.Call) and isinstance(v.func, ast.Name) and v.func.id == "dict" and not v.args and not v.keywords)
+                    or (isinstance(v, ast.Dict) and not v.keys)):
+                continue  # the empty results dictionary
+            fail(s, "unsupported assignment")
+        if isinstance(s, ast.If) and not s.orelse and len(s.body) == 1:
+            t, b = s.test, s.body[0]
+            if (isinstance(t, ast.Compare) and len(t.ops) == 1 and isinstance(t.ops[0], ast.Lt) and isinstance(t.left, ast.BinOp)
+                    and isinstance(t.left.op, ast.Sub) and k is None and names is not None):
+                l, r = t.left.left, t.left.right
+                ok_len = (isinstance(l, ast.Call) and isinstance(l.func, ast.Name) and l.func.id == "len" and len(l.args) == 1
+                          and isinstance(l.args[0], ast.Name) and l.args[0].id == listvar)
+                ok_cnt = (isinstance(r, ast.Call) and isinstance(r.func, ast.Attribute) and r.func.attr == "count"
+                          and isinstance(r.func.value, ast.Name) and r.func.value.id == listvar and len(r.args) == 1
+                          and isinstance(r.args[0], ast.Constant) and r.args[0].value is None)
+                if not (ok_len and ok_cnt):
+                    fail(s, "the test is not `len(xs) - xs.count(None) < k`")
+                if not (isinstance(b, ast.If) and not b.orelse and len(b.body) == 1 and is_none_test(b.test, ast.Is)
+                        and isinstance(b.body[0], ast.Assign) and len(b.body[0].targets) == 1
+                        and attr(b.body[0].targets[0]) == attr(b.test.left)):
+                    fail(s, "the body is not `if self.a is None: self.a = v`")
+                k, dflt = nat(t.comparators[0]), (attr(b.test.left), nat(b.body[0].value))
+                continue
+            if is_none_test(t, ast.IsNot) and clamp is None and isinstance(b, ast.Assign) and len(b.targets) == 1:
+                v = b.value
+                a = attr(t.left)
+                if not (attr(b.targets[0]) == a and isinstance(v, ast.Call) and isinstance(v.func, ast.Name) and v.func.id == "max"
+                        and len(v.args) == 2 and not v.keywords and isinstance(v.args[0], ast.Call)
+                        and isinstance(v.args[0].func, ast.Name) and v.args[0].func.id == "int" and len(v.args[0].args) == 1
+                        and attr(v.args[0].args[0]) == a):
+                    fail(s, "the body is not `self.b = max(int(self.b), m)`")
+                clamp = (a, nat(v.args[1]))
+                continue
+        fail(s, "unsupported statement")
+    if None in (names, k, dflt, clamp):
+        raise TranslateError(f"{fdef.name}: a part of __post_init__ is missing: {(names, k, dflt, clamp)}")
+    return (names, k, dflt, clamp)
